@@ -55,3 +55,18 @@ def is_tree(reg):
         if not rootp and not with_parent:
             return False
     return True
+
+
+def focus_cases(ctx):
+    """inputs on which model and implementation disagreed (with the merge policy of that case): run first"""
+    from ..worker import cmps_from
+    out = []
+    for m in ctx.focus:
+        if not m:
+            continue
+        cm = cmps_from(m["cmps"]) if m.get("cmps") else None
+        if "samples" in m:
+            out.append(([("Root", m["samples"])], cm, m.get("jobs")))
+        elif "inputs" in m:
+            out.append(([tuple(x) for x in m["inputs"]], cm, m.get("jobs")))
+    return out
